@@ -209,6 +209,24 @@ def gen_whole(rng, tier, ctx):
             b = bytearray(raw)
             struct.pack_into("<I", b, 0x38, 0xFFFFFFF)       # string_ids_size
             cases.append((kind, bytes(b)))
+    # crafted: a DEX whose string data ends the file (the map list lies before it), the last terminator cut off, size and
+    # checksum put right - the parser reaches the last string and has to notice the end of the data
+    import zlib
+    from tools.vlib import dexgen
+    for _ in range(3):
+        raw, _b = dexgen.build(dexgen.gen_model(rng), strings_last=True)
+        b = bytearray(raw[:-1]) if raw.endswith(b"\0") else bytearray(raw)
+        struct.pack_into("<I", b, 0x20, len(b))
+        struct.pack_into("<I", b, 8, zlib.adler32(bytes(b[12:])) & 0xFFFFFFFF)
+        cases.append(("dex", bytes(b)))
+    # crafted: a type-spec chunk that announces 2^31 entries inside an otherwise intact table
+    for kind, raw in base:
+        if kind == "arsc":
+            q = raw.find(b"\x02\x02\x10\x00")
+            if q >= 0 and q + 16 <= len(raw):
+                b = bytearray(raw)
+                struct.pack_into("<I", b, q + 12, rng.choice((0x7FFFFFFF, 0xFFFFFFFF, 50000000)))
+                cases.append((kind, bytes(b)))
     for _ in range(500 if tier == "thorough" else 90):
         kind, raw = rng.choice(base)
         b = bytearray(raw)
@@ -304,6 +322,10 @@ STREAMS = [
     {"name": "hidden-api", "gen": gen_hidden, "impl": impl_hidden, "coq_header": COQ_HEADER, "coq_type": "list Z",
      "coq_input": lambda c: zlist(list(c)), "coq_obs": "obs_hidden", "model_vo": "Misc/TermModel.vo", "pinned": False, "shard": 120,
      "oracle": oracle_ends, "case_timeout": 10},
+    {"name": "string-reader", "gen": lambda rng, tier, ctx: __import__("tools.props.c06", fromlist=["x"]).gen_nts(rng, tier, ctx),
+     "impl": lambda c: __import__("tools.props.c06", fromlist=["x"]).impl_nts(c), "coq_header": "Require Import V.Dex.StringsModel.", "coq_type": "list Z * Z",
+     "coq_input": lambda c: "(%s, %s)" % (zlist(list(c[0])), z(c[1])), "coq_obs": "obs_nts", "model_vo": "Dex/StringsModel.vo",
+     "pinned": False, "shard": 120, "oracle": oracle_ends, "case_timeout": 10},
     {"name": "whole-parsers", "gen": gen_whole, "impl": impl_whole, "pinned": False, "oracle": oracle_whole, "stats": stats_whole,
      "case_timeout": 30},
 ]
